@@ -578,6 +578,9 @@ err_write:
 	return rc;
 loop_data:
 	rc = errno;
+	/* No reason given means net_read() failed: then linein is not the current
+	 * line, but what is left of an earlier one. */
+	int linevalid = (logreasons[0] != NULL);
 	if (logreasons[0] == NULL) {
 		switch (rc) {
 		case EINVAL:
@@ -594,12 +597,13 @@ loop_data:
 	}
 	queue_reset();
 	/* eat all data until the transmission ends. But just drop it and return
-	 * an error defined before jumping here */
-	while ((linein.len != 1) || (linein.s[0] != '.')) {
+	 * an error defined before jumping here. Only a line that was read
+	 * successfully can be the end of the transmission. */
+	while (!linevalid || (linein.len != 1) || (linein.s[0] != '.')) {
 		msgsize += linein.len + 2;
 		if (linein.s[0] == '.')
 			msgsize--;
-		net_read(1);
+		linevalid = (net_read(1) == 0);
 	}
 
 	log_recips(logreasons[0], logreasons[1], logreasons[2]);
